@@ -230,12 +230,14 @@ class C04(Prop):
             "operands from a small expression grammar, each embedded in one of 8 enclosing contexts, optionally after a generated "
             "program; whole tree dumped, diagnostics counted per code; (2) mismatched_arg_count: 7 parameter lists x 0-4 arguments of 8 "
             "kinds (calls and `...` in every position) + string/table call sugar; (3) 44 positive/negative templates (all 10 lints outside the first group, 5 of which are now also modelled) "
-            "that are not modelled, in the same contexts; non-trivial = all; distinct = distinct sources")
+            "that are not modelled, in the same contexts; (4) bad_string_escape: quoted literals assembled from escape pieces (every "
+            "escape kind, hex runs, braces, non-ASCII characters and digits) under lua51 and the Roblox base library; "
+            "non-trivial = all; distinct = distinct sources")
     trusted_base = [
-        "modelled: the twelve lints named above over the dumped syntax tree (Lints/Closed.v); nodes_* enumerates what full_moon's "
+        "modelled: the twelve lints named above over the dumped syntax tree (Lints/Closed.v) and the scan of bad_string_escape over a literal's bytes (Lints/Escape.v, (4)); nodes_* enumerates what full_moon's "
         "Visitor reaches; diagnostics are compared by count per code, not by range",
-        "the other five lints of the property (if_same_then_else, ifs_same_cond, almost_swapped, bad_string_escape, "
-        "multiple_statements) are tested against template verdicts only: no theorem covers them",
+        "the other four lints of the property (if_same_then_else, ifs_same_cond, almost_swapped, multiple_statements) "
+        "are tested against template verdicts only: no theorem covers them",
         "f32 rounding is not modelled: loop ends within 2^-24 of 1 are not generated",
     ]
     assumptions = ["empty_if / empty_loop run with comments_count = false (the default)"]
